@@ -33,7 +33,8 @@ from checks.c09 import run_parallel, jobs
 
 LEVEL = "proof"
 MODULE = "Sqfs.Props.C02"
-EXTRA_THEOREMS = ("stateful_pool_is_pure", "schedule_independent_stateful", "stateful_worker_schedule_dependent")
+EXTRA_THEOREMS = ("stateful_pool_is_pure", "schedule_independent_stateful", "stateful_worker_schedule_dependent",
+                  "script_schedule_independent", "failure_deterministic_partial", "failed_item_back_status_nonzero")
 REQUIRED = ["Sqfs.C02." + t for t in (
     "run_eq_spec", "backlog_independent", "run_ok", "dequeue_never_internal_error", "finish_writes_everything",
     "realised_eq_serial", "schedule_independent", "jobs_independent", "times_depend_only_on_source_date_epoch",
@@ -696,21 +697,34 @@ def comp_level(ctx, stats):
             bad += 1
             if bad <= 3:
                 ctx.violation("comp-harness:" + vlib.sha(lines[i])[:12], "compressor harness: unexpected answer %r" % o[:200], {"kind": "comp", "line": lines[i]}, found_input=False)
+    contract_bad = {}
     for i, v in zip(idx, verdicts):
         if v != "ok":
-            bad += 1
-            if bad <= 3:
-                toks = outs[i].split()[2:]
-                k = int(v.split()[1]) if v.startswith("dep ") else -1
-                t = toks[k].split("/") if 0 <= k < len(toks) else ["?"] * 4
-                what = "history dependent: the worker copy returned %s, a fresh compressor %s" % (t[0], t[1]) if t[0] != t[1] else \
-                       "a fresh sqfs_copy returned %s, a freshly created compressor %s" % (t[2], t[1]) if t[2] != t[1] else \
-                       "do_block failed (%s)" % t[0] if t[0].startswith("-") else "the compressed block is not shorter or does not uncompress to the input"
-                m = meta[i]
-                ctx.violation("comp-history:%s:%s" % (m["comp"], vlib.sha(lines[i])[:12]),
-                              "%s do_block (-X %s, block size %d, %d worker copies, assignment %s), block #%d of the sequence: %s - the image depends on "
-                              "which worker thread compresses a block" % (m["comp"], m["opts"] or "-", m["B"], m["k"], m["mode"], k, what),
-                              {"kind": "comp", "line": lines[i], "verdict": v, "result": outs[i], "options": m["opts"]})
+            toks = outs[i].split()[2:]
+            k = int(v.split()[1]) if len(v.split()) == 2 and v.split()[1].isdigit() else -1
+            t = toks[k].split("/") if 0 <= k < len(toks) else ["?"] * 4
+            m = meta[i]
+            where = "%s do_block (-X %s, block size %d, %d worker copies, assignment %s), block #%d of the sequence" % (
+                m["comp"], m["opts"] or "-", m["B"], m["k"], m["mode"], k)
+            if v.startswith("dep "):
+                bad += 1
+                if bad <= 3:
+                    what = "history dependent: the worker copy returned %s, a fresh compressor %s" % (t[0], t[1]) if t[0] != t[1] else \
+                           "a fresh sqfs_copy returned %s, a freshly created compressor %s" % (t[2], t[1])
+                    ctx.violation("comp-history:%s:%s" % (m["comp"], vlib.sha(lines[i])[:12]),
+                                  "%s: %s - the image depends on which worker thread compresses a block" % (where, what),
+                                  {"kind": "comp", "line": lines[i], "verdict": v, "result": outs[i], "options": m["opts"]})
+            else:
+                # a hypothesis of the theorems (CodecOk) does not hold of this compressor: the property is no longer shown to hold
+                contract_bad[m["comp"]] = contract_bad.get(m["comp"], 0) + 1
+                if contract_bad[m["comp"]] <= 1:
+                    sizes = [len(x) // 2 if x != "-" else 0 for x in lines[i].split()[12::2]]
+                    what = "do_block failed (%s)" % t[0] if t[0].startswith("-") else \
+                           "a %d byte block is returned as a %s byte compressed block (not shorter), or it does not uncompress to the input" % (
+                               sizes[k] if 0 <= k < len(sizes) else -1, t[0].split(":")[0])
+                    ctx.violation("codec-contract:%s" % m["comp"],
+                                  "%s: %s - the codec contract the theorems assume (CodecOk.smaller / roundTrip) does not hold" % (where, what),
+                                  {"kind": "comp", "line": lines[i], "verdict": v, "result": outs[i], "options": m["opts"]}, found_input=False)
     for c in COMPRESSORS:
         if created.get(c, 0) == 0:
             bad += 1
@@ -718,9 +732,10 @@ def comp_level(ctx, stats):
                           {"kind": "comp-missing", "comp": c}, found_input=False)
     stats["compressors"] = {"cases": len(lines), "corpus": ncorpus, "created": created, "configurations_refused": notcreated, "blocks": blocks,
                             "blocks_shorter_than_1024": short, "blocks_compressed": compressed, "violations": bad,
+                            "codec_contract_broken": contract_bad,
                             "sample_options": sorted({m["comp"] + ":" + m["opts"] for m in meta})[:12], "wall_s": round(time.time() - t0, 1)}
     stats["evaluations"] += len(lines) + len(mon_in)
-    stats["disagreements"] += bad
+    stats["disagreements"] += bad + sum(contract_bad.values())
     stats["samples"].append(lines[ncorpus][:200] if len(lines) > ncorpus else "")
 
 
